@@ -205,6 +205,23 @@ func c14kSplit(elem []byte) ([][]byte, bool) {
 	return items, true
 }
 
+// c14kSplitPrefix: the elements of the list `elem` that can be read, and the unreadable tail (if any)
+func c14kSplitPrefix(elem []byte) (items [][]byte, tail []byte, ok bool) {
+	isList, content, rest, ok := c14kItem(elem)
+	if !ok || !isList || len(rest) != 0 {
+		return nil, nil, false
+	}
+	for len(content) > 0 {
+		_, _, r, ok := c14kItem(content)
+		if !ok {
+			return items, content, true
+		}
+		items = append(items, content[:len(content)-len(r)])
+		content = r
+	}
+	return items, nil, true
+}
+
 // ---- strict canonical checker (independent of the package under test)
 
 // c14kHeaderCanon: b is exactly one item whose OWN header is canonical (children not inspected).
@@ -290,6 +307,20 @@ func c14kClassify(ty *c14kTy, w, r []byte, path string) (string, string) {
 	case c14kStruct:
 		ws, ok1 := c14kSplit(w)
 		rs, ok2 := c14kSplit(r)
+		if !ok1 && ok2 && len(rs) == len(ty.fields) {
+			// the element list stops at a header that cannot be read (e.g. a lone 0xFC): if that is exactly where the
+			// Profile sits, Profile.DecodeRLP has ignored the error of Stream.Kind and taken it for "size zero"
+			if pre, tail, okp := c14kSplitPrefix(w); okp && len(tail) > 0 && len(pre) < len(ty.fields) &&
+				ty.fields[len(pre)].ty.kind == c14kProfile && len(pre)+1 == len(ty.fields) && bytes.Equal(rs[len(pre)], []byte{0xc0}) {
+				same := true
+				for i := range pre {
+					same = same && bytes.Equal(pre[i], rs[i])
+				}
+				if same {
+					return "profile/empty-form", path + "." + ty.fields[len(pre)].name + "(unreadable header)"
+				}
+			}
+		}
 		if !ok1 || !ok2 {
 			return ty.name + "-not-a-list", path
 		}
